@@ -24,7 +24,8 @@ def world_stats(worlds, runs):
     pol = {}
     shapes = {"conditional": 0, "multi_strategy": 0, "variance": 0, "enforce_deadlines": 0, "drop_skipped": 0}
     for w in worlds:
-        pol[w["flags"]["scheduler"]] = pol.get(w["flags"]["scheduler"], 0) + 1
+        pname = "FUZZ" if w.get("fuzz") else w["flags"]["scheduler"]
+        pol[pname] = pol.get(pname, 0) + 1
         if any(n.get("conditional") for g in w["workload"]["graphs"] for n in g["graph"]):
             shapes["conditional"] += 1
         if any(len(p["execution_strategies"]) > 1 for p in w["workload"]["profiles"]):
